@@ -111,7 +111,21 @@ func main() {
 	}
 	// 2. harness binary
 	bin := filepath.Join(build, "harness.test")
-	c = exec.Command("go1.26.8", "test", "-c", "-vet=off", "-tags", "verif", "-overlay", filepath.Join(build, "overlay.json"), "-o", bin, "./harness/"+cfg.Harness)
+	modfile := "-modfile=" + filepath.Join(root, "go.mod")
+	if repo != "/repo" {
+		// a tree elsewhere (scratch worktrees when trying out changes): same module file with the
+		// replace directive pointing there
+		gm, err := os.ReadFile(filepath.Join(root, "go.mod"))
+		if err != nil {
+			die(2, "%v", err)
+		}
+		gs, _ := os.ReadFile(filepath.Join(root, "go.sum"))
+		alt := filepath.Join(build, "alt.mod")
+		os.WriteFile(alt, []byte(strings.Replace(string(gm), "=> /repo", "=> "+repo, 1)), 0o644)
+		os.WriteFile(filepath.Join(build, "alt.sum"), gs, 0o644)
+		modfile = "-modfile=" + alt
+	}
+	c = exec.Command("go1.26.8", "test", "-c", modfile, "-vet=off", "-tags", "verif", "-overlay", filepath.Join(build, "overlay.json"), "-o", bin, "./harness/"+cfg.Harness)
 	c.Dir, c.Env, c.Stderr, c.Stdout = root, env(), os.Stderr, os.Stderr
 	if err := c.Run(); err != nil {
 		die(2, "building harness %s against the current tree failed: %v", cfg.Harness, err)
@@ -171,7 +185,7 @@ func main() {
 			w.Env = append(env(),
 				"VERIF_TIER="+tier, fmt.Sprintf("VERIF_SHARD=%d/%d", i, n), "VERIF_OUT="+out,
 				"VERIF_BUDGET_S="+strconv.Itoa(budget), "VERIF_SEED="+seed, "VERIF_REPLAY="+replay,
-				"VERIF_SCRATCH="+sd, "VERIF_OVERLAY="+filepath.Join(build, "overlay.json"), "VERIF_ROOT="+root, "VERIF_REPO="+repo, "VERIF_PROPERTY="+id,
+				"VERIF_SCRATCH="+sd, "VERIF_OVERLAY="+filepath.Join(build, "overlay.json"), "VERIF_ROOT="+root, "VERIF_REPO="+repo, "VERIF_MODFILE="+modfile, "VERIF_PROPERTY="+id,
 				"GOMAXPROCS="+strconv.Itoa(gmp), "TMPDIR="+sd)
 			w.Stdout, w.Stderr = logf, logf
 			err := w.Run()
@@ -210,7 +224,7 @@ func main() {
 	raceNote := ""
 	if cfg.RaceTest != "" && replay == "" {
 		rbin := filepath.Join(build, "race.test")
-		rc := exec.Command("go1.26.8", "test", "-c", "-race", "-vet=off", "-tags", "verif", "-overlay", filepath.Join(build, "overlay.json"), "-o", rbin, "./harness/race")
+		rc := exec.Command("go1.26.8", "test", "-c", modfile, "-race", "-vet=off", "-tags", "verif", "-overlay", filepath.Join(build, "overlay.json"), "-o", rbin, "./harness/race")
 		rc.Dir = root
 		rc.Env = append(env(), "CGO_ENABLED=1")
 		if out, err := rc.CombinedOutput(); err != nil {
